@@ -16,14 +16,14 @@ def layout_specs():
     prof = Profile(vrl='mixed', max_frames=2, max_channels=4, max_rows=12, max_width=40, meta_kinds=ALL_META,
                    max_meta=5, long_text=3000, noformat=2, nf_payload_max=600, chunks=True, sul_variants=True,
                    hdr_variants=True, attr_routes=('kw', 'dict', 'setup'), counts_over_127=True,
-                   unit_enums=False)
+                   unit_enums=False, preludes=True)
     return file_specs(prof)
 
 
 def tiny_specs():
     """Size-minimal valid specifications: 1-byte rows, 1-character names, empty payloads, every small vrl."""
     prof = Profile(vrl='small', max_frames=2, max_channels=2, max_rows=4, max_width=3, name_max=2, noformat=2,
-                   nf_payload_max=16, index_types=False, units=False, sul_variants=True)
+                   nf_payload_max=16, index_types=False, units=False, sul_variants=True, preludes=True)
     big = Profile(vrl='mixed', max_frames=1, max_channels=2, max_rows=3, max_width=2200, name_max=100, noformat=1,
                   nf_payload_max=40000, long_text=20000, meta_kinds=('comment', 'long_name'), max_meta=2,
                   index_types=False, units=False)
@@ -41,12 +41,17 @@ def write_spec(spec, ctx, tap=False):
         def sink(is_eflr, type_struct, bts):
             bodies.append((bool(is_eflr), type_struct[0] if type_struct else None, bytes(bts)))
         with dw.lr_tap(sink):
-            r = B.build_and_write(spec, ctx.path(), ctx.scratch)
+            r = B.build_and_write(spec, ctx.path(), ctx.scratch, after_prelude=bodies.clear)
         # the storage unit label is not a logical record (empty type struct)
         r['tapped'] = [b for b in bodies if b[1] is not None]
     else:
         r = B.build_and_write(spec, ctx.path(), ctx.scratch)
     return r
+
+
+def prelude_labels(spec):
+    pre = (spec.get('write') or {}).get('prelude')
+    return ['prelude:' + pre] if pre else []
 
 
 def outcome_label(r):
@@ -58,7 +63,7 @@ def outcome_label(r):
 
 def run_c01(spec, ctx):
     r = write_spec(spec, ctx)
-    labels = ['e2e']
+    labels = ['e2e'] + prelude_labels(spec)
     if r['outcome'] != 'written':
         return Result([], labels, False, outcome_label(r))
     sul = spec['sul']
@@ -85,7 +90,7 @@ def run_c01(spec, ctx):
 
 def run_c02(spec, ctx):
     r = write_spec(spec, ctx, tap=True)
-    labels = ['e2e']
+    labels = ['e2e'] + prelude_labels(spec)
     if r['outcome'] != 'written':
         return Result([], labels, False, outcome_label(r))
     try:
@@ -103,7 +108,7 @@ def run_c02(spec, ctx):
 def run_c15(spec, ctx):
     r = write_spec(spec, ctx, tap=True)
     vrl = spec['sul'].get('vrl', 8192)
-    labels = ['e2e', 'vrl<32' if vrl < 32 else 'vrl>=32']
+    labels = ['e2e', 'vrl<32' if vrl < 32 else 'vrl>=32'] + prelude_labels(spec)
     viol = []
     lens = [len(b) for _, _, b in r.get('tapped', [])]
     nontriv = vrl < 32 or any(L < 12 or L % 2 or L > 3 * (vrl - 8) for L in lens)
